@@ -51,7 +51,7 @@ func (o Op) String() string {
 }
 
 // OpKinds lists the call kinds.
-var OpKinds = []string{"decode", "decodeopts", "chained", "chainedopts", "chainedlog1", "chainedlog3", "decodelogger", "integrity", "header", "headerfileid", "decodefault", "encode", "encodebad", "encodefw", "encodeedit", "hdrintegrity"}
+var OpKinds = []string{"decode", "decodeopts", "chained", "chainedopts", "chainedlog1", "chainedlog3", "decodelogger", "integrity", "header", "headerfileid", "decodefault", "encode", "encodebad", "encodefw", "encodeedit", "hdrintegrity", "decodescribble"}
 
 // faultAts are the byte counts after which the reader of a "decodefault"
 // call fails with an error of its own (inside the header after the size
@@ -244,6 +244,21 @@ func runOp(p *Pool, op Op, files map[int]*fit.File) (res string) {
 			res += "\nerror text changed after return: " + again
 		}
 		return res
+	case "decodescribble":
+		// the caller owns the File Decode returned: it overwrites and grows
+		// every byte array in it, then decodes the same input again. The
+		// second File is what the first one was.
+		f1, err1 := fit.Decode(bytes.NewReader(p.Bytes[op.Idx]))
+		before := "err=" + errText(err1) + "\n" + digestFile(f1)
+		if f1 != nil {
+			prof.ScribbleByteArrays(f1)
+		}
+		f2, err2 := fit.Decode(bytes.NewReader(p.Bytes[op.Idx]))
+		after := "err=" + errText(err2) + "\n" + digestFile(f2)
+		if after != before {
+			return before + "\nTHE SAME INPUT DECODES TO ANOTHER FILE AFTER THE CALLER HAS WRITTEN INTO THE BYTE ARRAYS OF THE FIRST RESULT"
+		}
+		return before
 	case "hdrintegrity":
 		// the method on the Header value DecodeHeader returns (and on a copy
 		// whose stored CRC is off by one)
@@ -585,6 +600,36 @@ func BuildPool(seed int) *Pool {
 			}}
 			p.Bytes = append(p.Bytes, s.Bytes())
 			p.Names = append(p.Names, "compressed headers on messages without a timestamp field")
+		}
+		// byte arrays that hold the invalid pattern (all 0xFF, what a device
+		// writes for a byte array it does not support) next to ones that
+		// hold data, for every message with a byte-array field
+		{
+			s := &fitmodel.Stream{HeaderSize: 12, Proto: 0x20, Recs: []fitmodel.Rec{
+				{IsDef: true, Global: 0, Fields: []fitmodel.FieldDef{{Num: 0, Size: 1, Base: 0}}}, {Raw: []byte{4}},
+			}}
+			l := byte(1)
+			for _, g := range prof.MsgNums() {
+				mi := tab.Msgs[g]
+				for _, n := range prof.FieldNums(g) {
+					fi := mi.Fields[n]
+					if fi.Base != 0x0D || !fi.Array || g == 20 {
+						continue // (record: its byte array feeds the accumulators)
+					}
+					size := fi.Length
+					if size < 1 || size > 16 {
+						size = 6
+					}
+					s.Recs = append(s.Recs, fitmodel.Rec{IsDef: true, Local: l, Global: g, Fields: []fitmodel.FieldDef{{Num: n, Size: byte(size), Base: 0x0D}}},
+						fitmodel.Rec{Local: l, Raw: bytes.Repeat([]byte{0xFF}, size)},
+						fitmodel.Rec{Local: l, Raw: bytes.Repeat([]byte{0x11}, size)},
+						fitmodel.Rec{Local: l, Raw: bytes.Repeat([]byte{0xFF}, size)})
+					l = l%15 + 1
+					break
+				}
+			}
+			p.Bytes = append(p.Bytes, s.Bytes())
+			p.Names = append(p.Names, "byte arrays holding the invalid pattern")
 		}
 		return p
 	})
